@@ -55,13 +55,13 @@ func checkWire(c wireCase) error {
 	d := c.D.norm()
 	if !n.Valid() {
 		// the limit "that the unpacker enforces": more than 255 octets must be refused
-		pbt.Note(w, true, fmt.Sprintf("wirelen=%d", lenBucket(len(w))), "over-long-wire")
+		pbt.Note(w, true, fmt.Sprintf("wirelen=%d", lenBucket(len(w))), "over-long-wire", pointerClass(n))
 		if s, _, err := dns.UnpackDomainName(w, 0); err == nil {
 			return pbt.Errf("UnpackDomainName accepts a wire name of %d octets: %q", len(w), short(s))
 		}
-		return nil
+		return checkThroughPointer(n, "")
 	}
-	pbt.Note(w, nearLimit(n) || hasEscapeWorthy(n), fmt.Sprintf("wirelen=%d", lenBucket(len(w))), fmt.Sprintf("labels=%d", min(len(n), 5)), d.class(), highClass(n))
+	pbt.Note(w, nearLimit(n) || hasEscapeWorthy(n), fmt.Sprintf("wirelen=%d", lenBucket(len(w))), fmt.Sprintf("labels=%d", min(len(n), 5)), d.class(), highClass(n), pointerClass(n))
 	// the name sits behind a few unrelated octets, so offsets are exercised too
 	msg := append([]byte{0xde, 0xad, 0xbe}, w...)
 	msg = append(msg, 0x55)
@@ -79,6 +79,10 @@ func checkWire(c wireCase) error {
 	// the spelling of every octet is a function of the octet alone (utf8_test.go)
 	if serr := checkSpelling(fmt.Sprintf("UnpackDomainName(%x)", w), s, n); serr != nil {
 		return serr
+	}
+	// the limit and the text are those of the name, however its octets are laid out in the message
+	if perr := checkThroughPointer(n, s); perr != nil {
+		return perr
 	}
 	buf, poff, err := d.packName(s, len(w))
 	if err != nil {
@@ -145,6 +149,56 @@ func checkWire(c wireCase) error {
 			if strings.IndexByte(`"();@'`, txt[i]) >= 0 && (i == 0 || txt[i-1] != '\\') {
 				return pbt.Errf("%s of the raw name %q leaves %q unescaped: %q", how, short(raw), txt[i], short(txt))
 			}
+		}
+	}
+	return nil
+}
+
+func pointerClass(n wm.Name) string {
+	if len(n) < 2 {
+		return "read-through-a-pointer=false"
+	}
+	return "read-through-a-pointer=true"
+}
+
+// checkThroughPointer: the same name as the unpacker meets it in a message - its tail stands
+// somewhere earlier, the leading labels are followed by a compression pointer to it (cut behind
+// the first label, in the middle, in front of the last label). "The 255-octet name limit that the
+// unpacker enforces" is a limit of the NAME: a name of more than 255 octets must be refused however
+// it is laid out, and a valid one reads as the same text (text == "": the name is over-long).
+func checkThroughPointer(n wm.Name, text string) error {
+	if len(n) < 2 {
+		return nil
+	}
+	valid := n.Valid()
+	done := map[int]bool{}
+	for _, cut := range []int{1, len(n) / 2, len(n) - 1} {
+		if done[cut] {
+			continue
+		}
+		done[cut] = true
+		msg := []byte{0xde, 0xad, 0xbe}
+		msg = append(msg, wm.EncodeName(n[cut:])...)
+		start := len(msg)
+		head := wm.EncodeName(n[:cut])
+		msg = append(msg, head[:len(head)-1]...) // without its root octet
+		msg = append(msg, 0xc0, 3, 0x55)
+		s, off, err := dns.UnpackDomainName(msg, start)
+		what := fmt.Sprintf("UnpackDomainName of %d labels (%d octets) followed by a pointer to the other %d labels (%d octets)", cut, len(head)-1, len(n)-cut, n[cut:].WireLen())
+		if !valid {
+			if err == nil {
+				return pbt.Errf("%s accepts a name of %d octets in all: %q", what, n.WireLen(), short(s))
+			}
+			continue
+		}
+		if err != nil {
+			return pbt.Errf("%s rejects a valid name of %d octets: %v (%x)", what, n.WireLen(), err, msg)
+		}
+		if off != len(msg)-1 {
+			return pbt.Errf("%s consumed up to %d, want %d (behind the pointer)", what, off, len(msg)-1)
+		}
+		if s != text {
+			return pbt.Errf("%s = %q, but the same name written out unpacks to %q", what, short(s), short(text))
 		}
 	}
 	return nil
@@ -344,7 +398,7 @@ func checkText(c textCase) error {
 	if !v.fq {
 		cls = "not-fq"
 	}
-	pbt.Note([]byte(s), esc || near, cls, d.class(), highClass(v.name))
+	pbt.Note([]byte(s), esc || near, append([]string{cls, d.class(), highClass(v.name)}, spellClasses(s)...)...)
 	if esc || near {
 		pbt.Sample(cls, s)
 	}
@@ -383,6 +437,11 @@ func checkText(c textCase) error {
 		if verr := d.verify(fmt.Sprintf("PackDomainName(%q)", short(s)), buf, off, w); verr != nil {
 			return verr
 		}
+		// the name is the same name however it is spelled: what the printing paths write for this
+		// spelling denotes the same labels (print_test.go)
+		if perr := checkPrinted(s, v.name); perr != nil {
+			return perr
+		}
 	}
 	// (4) whatever the packer emits, the unpacker accepts
 	if perr == nil && off >= d.Off && off <= len(buf) {
@@ -407,7 +466,10 @@ func short(s string) string {
 // spelled names around the limits
 func genText(t *rapid.T) textCase {
 	var n wm.Name
-	switch rapid.IntRange(0, 5).Draw(t, "shape") {
+	shape := rapid.IntRange(0, 6).Draw(t, "shape")
+	switch shape {
+	case 6: // short labels that are mostly digits: what the escapes themselves are made of (print_test.go)
+		n = genDigitName(t)
 	case 0: // total wire length 250..262
 		n = gen.NameOfWireLen(t, rapid.IntRange(248, 262).Draw(t, "wl"), gen.NameOpts{})
 	case 1: // one label of 60..66 octets
@@ -424,7 +486,13 @@ func genText(t *rapid.T) textCase {
 	}
 	var sb strings.Builder
 	raw := rapid.IntRange(0, 3).Draw(t, "rawhigh") == 0
+	// every legal spelling, a backslash in front of a digit included (half of the names; always for
+	// the digit names)
+	foreign := rapid.Bool().Draw(t, "foreign") || shape == 6
 	for _, l := range n {
+		if foreign {
+			break
+		}
 		if raw {
 			sb.WriteString(gen.SpellLabelRaw(t, l))
 		} else {
@@ -433,6 +501,9 @@ func genText(t *rapid.T) textCase {
 		sb.WriteByte('.')
 	}
 	s := sb.String()
+	if foreign {
+		s = spellForeign(t, n, raw)
+	}
 	if len(n) == 0 {
 		s = "."
 	}
